@@ -28,6 +28,28 @@ PROOF_NOTE = ('Trusted: Lean kernel; axioms propext/Classical.choice/Quot.sound 
 
 NOT_APPLICABLE = {}
 
+# Operations whose MODEL answer is, by a theorem of the property checked in the same run, exactly what the property
+# demands: a disagreement in the RESULT of such an operation between the real code and the model is therefore a concrete
+# failing input for that property, not merely a broken correspondence (theorem named for the message).
+SPEC_OPS = {
+    'C02': ({'mul2', 'eval'}, 'mul2_eq_bv / C03.polyEval_eq_evalX: the model is multiplication by x and Horner evaluation over GF(2048)'),
+    'C05': ({'eval'}, 'C05.wrong_coin'),
+    'C03': ({'pack', 'encode'}, 'dataToPoly_eq_spec / C03.encode_eq_spec'),
+    'C06': ({'dstore', 'dload', 'store', 'load'}, 'C06.store_bytes / load_ok_iff / load_status'),
+    'C08': ({'find'}, 'C08.find_iff_rule'),
+    'C09': ({'pdecode', 'pdecodex', 'decode', 'decoden', 'decodex'}, 'C09.phraseDecode_cases / decode_status / decode_eq_explicit'),
+    'C10': ({'supported', 'features', 'feature'}, 'C10.supported_iff / enable_spec / getFeature_spec'),
+    'C11': ({'bdayenc', 'bdaydec', 'birthday'}, 'C11.birthday_in_range / birthday_clamped / birthday_form'),
+    'C13': ('*', 'C13R.run_refines: every output is the abstract model\'s'),
+}
+
+
+def spec_op(pid, opname):
+    so = SPEC_OPS.get(pid)
+    if not so:
+        return None
+    return so[1] if (so[0] == '*' or opname in so[0]) else None
+
 prop('C02', level='proof', modules=['Polyseed.Props.C02', 'Polyseed.Props.C02Phrase'], suites=['gf'],
      api=dict(cone={'decode': 'status', 'decodex': 'status', 'decoden': 'status'}, weights=dict(errors=8, crafted=2, roundtrip=1), sessions=3),
      text='Theorems single_error, swap_error, unique_check_word, unique_word_at over ALL coefficient vectors, lifted to phrases (decodeExplicit_of_words, decodeExplicit_substituted, decodeExplicit_swapped / swap_error_coin: any string that normalises to the phrase with one word replaced or two unequal words exchanged is answered with the checksum status by explicit decoding, every coin) (XOR-linearity of Horner evaluation + kernel-evaluated facts about all 2048 field elements: mul2 = multiplication by x mod x^11+x^2+1, injective, no cycle of length 1..15). The C gf_elem_mul2 is compared with the model on all 2048 elements, gf_poly_eval on unit vectors/random/valid polynomials.',
@@ -41,7 +63,7 @@ prop('C04', level='proof', modules=['Polyseed.Props.C04'], suites=[],
      technique='Lean 4 proof (event theorem + injectivity of the salt layout) + API-history correspondence with recorded KDF arguments',
      assumptions=['coin < 2048; canonical seeds (proved invariant, C13)'])
 prop('C05', level='proof', modules=['Polyseed.Props.C05'], suites=['gf'],
-     api=dict(cone={'encode': 'result', 'decode': 'status', 'decodex': 'status', 'decoden': 'status'}, weights=dict(errors=6, roundtrip=2)),
+     api=dict(cone={'encode': 'result', 'decode': 'status', 'decodex': 'status', 'decoden': 'status'}, weights=dict(errors=6, roundtrip=2)), extra='extra_coin_threads',
      text='Theorems wrong_coin (a valid polynomial encoded for coin a fails the checksum for every b != a; corollary of C02.single_error), same_coin, coin_changes_word2_only, for all polynomials and all 2048x2047 ordered pairs. S-api decodes phrases for wrong coins on the real code (biased to coins 0/2047 and XOR-neighbours).',
      note=PROOF_NOTE + 'Stated on coefficient vectors; the lifting to phrases uses the word-lookup theorems (C07/C08).',
      technique='Lean 4 proof (corollary of the GF(2048) single-error theorem) + API-history correspondence',
@@ -77,7 +99,7 @@ prop('C15', level='proof', modules=['Polyseed.Props.C15'], suites=[],
      technique='Lean 4 proof (ledger invariant by induction over histories, all fault schedules) + exhaustive fault enumeration over a fixed history',
      assumptions=['malloc contract; handles passed to the library are live'])
 prop('C14', level='other', modules=['Polyseed.Props.C14'], suites=[],
-     api=dict(cone={'*': 'status'}, weights=dict(garbage=8, badtokens=3, faults=2, unsupported=1, roundtrip=1), sessions=4), extra='extra_malformed',
+     api=dict(cone={'*': 'status'}, weights=dict(garbage=8, badtokens=3, mixed=3, faults=2, unsupported=1, roundtrip=1, crafted=1), sessions=4), extra='extra_malformed',
      text='Theorems strSplit_bounds (never more than 16 tokens stored, never more than 17 returned), lazyNfkd_length, load/create/decode/decodeExplicit status-range theorems (only documented statuses, every input), failed_call_no_seed (any call, input, oracle and allocation outcome), termination of every model function (accepted by Lean as total definitions). Runtime: the malformed stream (raw bytes, invalid UTF-8, strings around POLYSEED_STR_SIZE and up to 40000 bytes, separator floods, mutated phrases, random/mutated 32-byte buffers) through both decoders, crypt and load with every input flush against a PROT_NONE page, output buffers likewise, ASan+UBSan, inputs compared before/after.', note=PROOF_NOTE, technique='Lean 4 theorems on the model (totality, status ranges, capacity bounds) + sanitizer/guard-page observation', assumptions=[],
      explanation='model: every function is total by construction (structural or fuel-bounded recursion), returns only documented statuses, keeps within its buffer capacities and hands out no seed on failure (theorems, all inputs); code: every input string and buffer is placed flush against a PROT_NONE page, output buffers likewise, the library runs under ASan+UBSan, inputs are compared before/after, the harness allocator checks the ledger; what is NOT shown: the memory accesses of the compiled code on inputs outside the explored ones')
 prop('C20', level='other', modules=['Polyseed.Props.C20'], suites=[], extra='extra_threads',
@@ -133,7 +155,7 @@ prop('C10', level='proof', modules=['Polyseed.Props.C10'], suites=['feat'],
      technique='Lean 4 proof (mask algebra, decide +kernel over 8x32) + exhaustive correspondence on the feature entry points',
      assumptions=['feature values held by seeds are 5-bit (proved for every constructor in C13)'])
 prop('C11', level='proof', modules=['Polyseed.Props.C11'], suites=['bday'],
-     api=dict(cone={'create': 'result', 'birthday': 'result'}, weights=dict(queries=3, roundtrip=2, storage=1, crypt=1, clocks=1), sessions=2),
+     api=dict(cone={'create': 'result', 'birthday': 'result'}, weights=dict(queries=3, roundtrip=2, storage=1, crypt=1, inject=1, clocks=1), sessions=2),
      text='Theorems birthday_in_range (B <= t < B + 2629746 on the whole range), birthday_clamped, birthday_never_future (every t < 2^64), birthday_form (no 64-bit overflow), create_birthday, crypt/store-load preservation. birthday_encode/decode are compared with the model on all 1025 month boundaries +-1, the epoch, 0, 2^31/2^32/2^63/2^64 neighbours and random values.',
      note=PROOF_NOTE + 'Modelled, not verified: birthday.h and the clock call in polyseed_create.',
      technique='Lean 4 proof (omega over all 64-bit clock values) + boundary-exhaustive correspondence',
@@ -192,13 +214,16 @@ def run_suite(ctx, pid, S, viol, stats):
                                   script=[suites.INJECT, head], suite=S.name, variant=variant, found_input=True))
         st['mismatches'] += len(res.mismatches)
         for (i, cb, mb) in res.mismatches[:5]:
-            viol.append(Violation('correspondence', 'corr:%s:%s' % (S.name, cb[0].split()[1] if len(cb[0].split()) > 1 else '?'),
-                                  'suite %s (%s): the real code and the model disagree at op %d' % (S.name, variant, i),
-                                  script=context_script(S.script, res, i), expected=mb, observed=cb, suite=S.name, variant=variant))
+            opn = cb[0].split()[1] if len(cb[0].split()) > 1 else '?'
+            thm = spec_op(pid, opn)
+            viol.append(Violation('correspondence', 'corr:%s:%s' % (S.name, opn),
+                                  'suite %s (%s): the real code and the model disagree at op %d (%s)%s' % (
+                                      S.name, variant, i, cb[0][:120], '; the model\'s answer is what the property demands (%s): code gives %s, demanded %s' % (
+                                          thm, [l for l in cb if l.startswith('<')][:1], [l for l in mb if l.startswith('<')][:1]) if thm else ''),
+                                  script=context_script(S.script, res, i), expected=mb, observed=cb, suite=S.name, variant=variant, found_input=bool(thm)))
         for orc in S.oracles:
-            for (p, key, msg, script) in orc(res.c_ops)[:50]:
-                if p == pid:
-                    viol.append(Violation('oracle', key, msg, script=script, suite=S.name, variant=variant, found_input=True))
+            for (p, key, msg, script) in [x for x in orc(res.c_ops) if x[0] == pid][:50]:
+                viol.append(Violation('oracle', key, msg, script=script, suite=S.name, variant=variant, found_input=True))
 
 
 # C13 says EVERY output equals the abstract model's: an output oracle of a more specific property is a C13 witness too
@@ -258,9 +283,14 @@ def run_api(ctx, pid, viol, stats, weights=None, sessions=None, nops=None, varia
             for (i, cb, mb) in session.diff_with_model(sess, cone)[:5]:
                 opname = cb[0].split()[1] if len(cb[0].split()) > 1 else '?'
                 st['mismatches'] += 1
+                thm = spec_op(pid, opname)
+                from .cone import aspect_differs as _ad
+                in_result = _ad('result', cb, mb)
                 viol.append(Violation('correspondence', 'corr:%s:%s' % (tag, opname),
-                                      'API history (%s): the real code and the model disagree at op %d (%s)' % (variant, i, cb[0][:100]),
-                                      script=sess.script[-700:], expected=mb, observed=cb, suite=tag, variant=variant))
+                                      'API history (%s): the real code and the model disagree at op %d (%s)%s' % (
+                                          variant, i, cb[0][:100], '; the model\'s answer is what the property demands (%s): code gives %s, demanded %s' % (
+                                              thm, [l for l in cb if l.startswith('<')][:1], [l for l in mb if l.startswith('<')][:1]) if (thm and in_result) else ''),
+                                      script=sess.script[-700:], expected=mb, observed=cb, suite=tag, variant=variant, found_input=bool(thm and in_result)))
     st['wall'] += time.time() - t0
 
 
@@ -418,7 +448,7 @@ def broad_script(ctx, rnd):
     # unit level: words, abbreviations, unaccented forms in every language
     for li in range(Ls.n):
         words = Ls.words(li)
-        for wi in rnd.sample(range(len(words)), 60 if ctx.thorough else 15):
+        for wi in rnd.sample(range(len(words)), 120 if ctx.thorough else 50):
             for tok in suites.word_variants(Ls.langs[li], words[wi], rnd, False)[:8]:
                 if tok and b'\x00' not in tok:
                     script.append('find %d %s' % (li, suites.hx(tok)))
@@ -790,33 +820,56 @@ def extra_threads(ctx, pid, viol, stats):
     st['wall'] = time.time() - t0
 
 
-def extra_kdf_threads(ctx, pid, viol, stats):
-    """C04 under concurrency: the password and salt handed to the injected KDF must not change while the KDF runs (the stub
-    copies them on entry, yields, compares): a shared static salt or password buffer shows up here (harness/threads.c)"""
-    import re
+def _thread_counters(ctx, viol, stats, tag, note, judge):
+    """run harness/threads.c (TSan build, reports switched off: only its own counters are read) and hand its output to `judge`"""
     import subprocess
     t0 = time.time()
-    st = stats.setdefault('kdf-threads', dict(evaluations=0, distinct=set(), samples=[], variants=['tsan'], wall=0.0, exhaustive=False, mismatches=0, hist={},
-                                              note='N threads derive keys and encrypt their own seeds concurrently; the KDF stub checks that its inputs are stable during the call'))
+    st = stats.setdefault(tag, dict(evaluations=0, distinct=set(), samples=[], variants=['tsan'], wall=0.0, exhaustive=False, mismatches=0, hist={}, note=note))
     exe, err = core.build_aux(ctx.tree, 'threads-tsan', 'threads.c', 'gcc', ['-O1', '-g', '-fsanitize=thread', '-DNDEBUG'], ['-lpthread', '-lutf8proc'])
     if err:
-        viol.append(Violation('crash', 'threads-build', err, suite='kdf-threads'))
+        viol.append(Violation('crash', 'threads-build', err, suite=tag))
         return
     for nt, iters in ([(8, 20)] if not ctx.thorough else [(8, 100), (32, 30), (3, 300)]):
         env = dict(os.environ, TSAN_OPTIONS='halt_on_error=0:exitcode=0:report_bugs=0')
         r = subprocess.run([exe, str(nt), str(iters)], stdout=subprocess.PIPE, stderr=subprocess.PIPE, text=True, env=env)
         st['evaluations'] += nt * iters
-        m = re.search(r'KDF-UNSTABLE (\d+)', r.stdout)
-        st['hist']['%d threads x %d iterations' % (nt, iters)] = m.group(0) if m else 'no-result (exit %d)' % r.returncode
         st['distinct'].add('%dx%d' % (nt, iters))
-        if m and int(m.group(1)) > 0:
-            viol.append(Violation('oracle', 'kdf-input-unstable', 'with %d threads deriving keys from their own seeds, the password or salt handed to the injected KDF changed %s time(s) WHILE the KDF was running: the inputs of one derivation are overwritten by another call' % (nt, m.group(1)),
-                                  script=['harness/threads.c %d %d' % (nt, iters), 'look for KDF-UNSTABLE in the output'], suite='kdf-threads', variant='tsan', found_input=True))
-        elif not m:
-            viol.append(Violation('crash', 'threads-crash', 'thread harness exited with %d: %s' % (r.returncode, r.stderr[-1200:]), script=['harness/threads.c %d %d' % (nt, iters)], suite='kdf-threads'))
+        if 'DONE threads' not in r.stdout:
+            viol.append(Violation('crash', 'threads-crash', 'thread harness exited with %d: %s' % (r.returncode, r.stderr[-1200:]), script=['harness/threads.c %d %d' % (nt, iters)], suite=tag))
+            continue
+        judge(r.stdout, nt, iters, st)
     if not st['samples']:
         st['samples'].append(['harness/threads.c 8 20'])
     st['wall'] = time.time() - t0
+
+
+def extra_kdf_threads(ctx, pid, viol, stats):
+    """C04 under concurrency: the password and salt handed to the injected KDF must not change while the KDF runs (the stub
+    copies them on entry, sleeps, compares): a shared static salt or password buffer shows up here (harness/threads.c)"""
+    import re
+
+    def judge(out, nt, iters, st):
+        m = re.search(r'KDF-UNSTABLE (\d+)', out)
+        st['hist']['%d threads x %d iterations' % (nt, iters)] = m.group(0) if m else 'no-result'
+        if m and int(m.group(1)) > 0:
+            viol.append(Violation('oracle', 'kdf-input-unstable', 'with %d threads deriving keys from their own seeds, the password or salt handed to the injected KDF changed %s time(s) WHILE the KDF was running: the inputs of one derivation are overwritten by another call' % (nt, m.group(1)),
+                                  script=['harness/threads.c %d %d' % (nt, iters), 'look for KDF-UNSTABLE in the output'], suite='kdf-threads', variant='tsan', found_input=True))
+    _thread_counters(ctx, viol, stats, 'kdf-threads', 'N threads derive keys and encrypt their own seeds concurrently; the KDF stub checks that its inputs are stable during the call', judge)
+
+
+def extra_coin_threads(ctx, pid, viol, stats):
+    """C05 under concurrency: every thread decodes its own phrases for two wrong coins (explicitly and with auto-detection)
+    while the others decode theirs; the normaliser stub sleeps so that the calls overlap.  Anything but the checksum status
+    (or multiple-languages) is counted, serially and concurrently."""
+    import re
+
+    def judge(out, nt, iters, st):
+        m = re.search(r'WRONG-COIN-NOT-CHECKSUM serial=(\d+) concurrent=(\d+)', out)
+        st['hist']['%d threads x %d iterations' % (nt, iters)] = m.group(0) if m else 'no-result'
+        if m and (int(m.group(1)) > 0 or int(m.group(2)) > 0):
+            viol.append(Violation('oracle', 'wrong-coin-threads', 'phrases decoded for a coin other than their own did not give the checksum status %s time(s) in the serial run and %s time(s) with %d threads decoding their own phrases concurrently' % (m.group(1), m.group(2), nt),
+                                  script=['harness/threads.c %d %d' % (nt, iters), 'look for WRONG-COIN-NOT-CHECKSUM in the output'], suite='coin-threads', variant='tsan', found_input=True))
+    _thread_counters(ctx, viol, stats, 'coin-threads', 'N threads decode their own phrases for wrong coins concurrently (sleeping normaliser stub)', judge)
 
 
 def extra_syms_undef(ctx, pid, viol, stats):
@@ -841,6 +894,14 @@ def extra_malformed(ctx, pid, viol, stats):
         strings.append(('é' * (n // 2 + 1)).encode()[:n])
         strings.append((' '.join(['日本'] * (n // 7 + 1))).encode()[:n])
         strings.append(b' ' * n)
+        # an ASCII prefix followed by non-ASCII text (the lazily normalised form), incl. characters whose NFKD form is longer
+        # than the character itself (one half: 2 -> 5 bytes; U+FDFA: 3 -> 33 bytes) so that the normal form crosses the
+        # buffer size while the input does not
+        for pfx in sorted({1, max(1, n // 2), max(1, n - 3), max(1, n - 40)}):
+            if pfx < n:
+                strings.append(b'a' * pfx + ('\u00e9' * ((n - pfx) // 2 + 1)).encode()[:n - pfx])
+                strings.append(b'ab ' * (pfx // 3) + ('\u00bd' * ((n - pfx) // 2 + 1)).encode()[:(n - pfx) // 2 * 2])
+        strings.append(b'word ' * 3 + ('\ufdfa' * (n // 30 + 1)).encode())
     for _ in range(400 if ctx.thorough else 80):
         k = rnd.randrange(6)
         if k == 0:
